@@ -143,10 +143,31 @@ if not VIOLATED:
     try: U.to_csv(current_output_folder=d, data=pd.DataFrame({'a': [1]}), name='detector_frame', with_auto_suffix=False)
     except Exception: pass
     if target.read_bytes() != b'precious': VIOLATED, DETAIL = True, 'to_csv overwrote the existing file'
+if not VIOLATED:
+    # the writer methods of the Outputs object (same rule); run numbers with the automatic suffix as well
+    import warnings, pandas as pd
+    warnings.simplefilter('ignore')
+    from pyxel.outputs import ExposureOutputs
+    out = ExposureOutputs(output_folder=d, save_data_to_file=[])
+    out.create_output_folder()
+    folder = Path(out.current_output_folder)
+    for meth, ext in (('save_to_npy', 'npy'), ('save_to_txt', 'txt'), ('save_to_fits', 'fits'), ('save_to_png', 'png'), ('save_to_jpeg', 'jpeg'), ('save_to_jpg', 'jpg'), ('save_to_csv', 'csv')):
+        for auto in (False, True):
+            target = folder / (f'detector_image_1.{ext}' if auto else f'detector_image.{ext}')
+            target.write_bytes(b'precious')
+            arg = pd.DataFrame({'a': [1]}) if ext == 'csv' else data.astype(np.uint8) if ext in ('png', 'jpg', 'jpeg') else data
+            try:
+                getattr(out, meth)(arg, 'detector_image', with_auto_suffix=auto, **({'run_number': 0} if auto else {}))
+            except Exception:
+                pass
+            if target.read_bytes() != b'precious':
+                VIOLATED, DETAIL = True, f'Outputs.{meth}(with_auto_suffix={auto}) overwrote the existing file {target.name}'; break
+        if VIOLATED: break
 """, "expect": "no writer overwrites or truncates an existing file"}
 
 WRITERS = [("to_fits", True), ("to_npy", True), ("to_txt", True), ("to_csv", False), ("to_png", True), ("to_jpg", True)]
 LOW_WRITERS = ["write_to_fits", "write_to_npy", "write_to_jpg"]
+METHOD_WRITERS = [("save_to_fits", True), ("save_to_npy", True), ("save_to_txt", True), ("save_to_csv", False), ("save_to_png", True), ("save_to_jpeg", True), ("save_to_jpg", True)]
 
 
 def check_writes(u, p, tag, rp):
@@ -185,6 +206,34 @@ def write_unit(u: Unit):
                     u.oblige(p, f"write.writes_data[{name},auto={auto}]", z3.And(zb(ok), (FSM.path_text(p.value) == ws[0][1]) if ok else z3.BoolVal(False),
                                                                                 z3.Select(p.st.ghost["FS"], ws[0][1]) == ws[0][4] if ok else z3.BoolVal(False)), {}, WRITE_REPLAY)
             u.static(f"write.cover[{name},auto={auto}]", n_ret >= 1, fi.qualname, f"{n_ret} normal paths")
+    # the writer METHODS of Outputs (public, deprecated in favour of the functions above, still complete writers of their own)
+    oci = u.cls(f"{OO}::Outputs")
+    for name, is_array in METHOD_WRITERS:
+        fi = u.fn(f"{OO}::Outputs.{name}")
+        cfg = mk_cfg()
+        for auto in (False, True):
+            def setup(ex, auto=auto, is_array=is_array):
+                folder = FSM.mk_path(ex, z3.String("folder"))
+                me = ex.st.alloc(HObj(oci, {"_current_output_folder": folder, "current_output_folder": folder, "_log": VOpaque("logger")}))
+                data = ex.st.alloc(HArr((z3.Int("dr"), z3.Int("dc")), VDtype("float64"), lambda ix: VFloat(z3.RealVal(1)))) if is_array else VOpaque(
+                    "xr", ex.st.fresh_int("df"), {"label": "dataframe", "type": "pandas.DataFrame"})
+                kw = {"data": data, "name": VStr("detector_image"), "with_auto_suffix": VBool(auto)}
+                if auto:
+                    kw["run_number"] = VInt(z3.Int("run_number"))
+                    ex.st.assume(z3.Int("run_number") >= 0)
+                ex.data = data
+                return [me], kw
+            ps = u.paths(fi, setup, cfg, label=f"Outputs.{name}[auto={auto}]")
+            n_ret = 0
+            for p in ps:
+                check_writes(u, p, f"Outputs.{name},auto={auto},{p.kind}", WRITE_REPLAY)
+                if p.kind == "return":
+                    n_ret += 1
+                    ws = [e for e in p.st.events if e[0] == "write"]
+                    ok = len(ws) == 1 and isinstance(p.value, VOpaque) and p.value.kind == "path"
+                    u.oblige(p, f"write.writes_data[Outputs.{name},auto={auto}]", z3.And(zb(ok), (FSM.path_text(p.value) == ws[0][1]) if ok else z3.BoolVal(False),
+                                                                                        z3.Select(p.st.ghost["FS"], ws[0][1]) == ws[0][4] if ok else z3.BoolVal(False)), {}, WRITE_REPLAY)
+            u.cover(f"write.cover[Outputs.{name},auto={auto}]", ps, lambda p: p.kind == "return")
     for name in LOW_WRITERS:
         fi = u.fn(f"{OU}::{name}")
         cfg = mk_cfg()
